@@ -440,7 +440,12 @@ func (o *snapshotter) cleanupDirectories(ctx context.Context, cleanupCommitted b
 func (o *snapshotter) getCleanupDirectories(ctx context.Context, t storage.Transactor, cleanupCommitted bool) ([]string, error) {
 	ids, err := storage.IDMap(ctx)
 	if err != nil {
-		return nil, err
+		if !errdefs.IsNotFound(err) {
+			return nil, err
+		}
+		// The metadata store doesn't have any snapshot yet (e.g. the process died during the
+		// very first Prepare). Every directory is a leftover.
+		ids = map[string]string{}
 	}
 
 	snapshotDir := filepath.Join(o.root, "snapshots")
@@ -468,7 +473,7 @@ func (o *snapshotter) getCleanupDirectories(ctx context.Context, t storage.Trans
 				}
 			}
 			return nil
-		}); err != nil {
+		}); err != nil && !errdefs.IsNotFound(err) {
 			return nil, err
 		}
 	}
